@@ -120,10 +120,14 @@ bool step(vf::Ctx& c, Sys& s, const Event& e, const std::string& params) {
   return ok;
 }
 
+// the monitor's period window whatever container holds it (std::queue today): adapter .c if there is one, else begin()/end()
+template <class Q> auto raw_periods(const Q& q, int) -> decltype(q.c.begin(), std::vector<long long>()) { return std::vector<long long>(q.c.begin(), q.c.end()); }
+template <class Q> std::vector<long long> raw_periods(const Q& q, long) { return std::vector<long long>(std::begin(q), std::end(q)); }
+
 uint64_t canon(const Sys& s) {
   uint64_t h = 3;
   // implementation: period queue (first pseudo-period, which is the absolute first stamp, replaced by a marker), sum, rate, reports
-  const auto& q = s.mon->periods_.c;
+  const std::vector<long long> q = raw_periods(s.mon->periods_, 0);
   long long sum = s.mon->periodsSum_;
   bool firstIn = s.rm.nstamps >= 1 && s.rm.nstamps <= s.rm.W;   // the pseudo-period is still queued
   for (size_t i = 0; i < q.size(); ++i) { if (i == 0 && firstIn) { h = vf::mix64(h, 0xabcdef); sum -= q[0]; } else h = vf::mix64(h, (uint64_t)q[i]); }
@@ -220,12 +224,12 @@ void s1b(vf::Ctx& c, double rate, double tol, int depth, int first) {
 //  0 jitter +10%, 1 jitter -10%, 2 burst (1 us period), 3 silence 0.6 s, 4 silence 10 s, 5 early heartbeat inserted, 6 late heartbeat inserted (0.5s+1ns), 7 very late heartbeat (2 s) then data
 struct Dev { int pos, kind; };
 const char* kDevName[] = {"jitter+10%", "jitter-10%", "burst_1us", "silence_0.6s", "silence_10s", "heartbeat_early", "heartbeat_0.5s+1ns", "heartbeat_2s"};
-bool run_script(vf::Ctx& c, double rate, double tol, int len, const std::vector<Dev>& devs, bool zeroFirst = false) {
+bool run_script(vf::Ctx& c, double rate, double tol, int len, const std::vector<Dev>& devs, bool zeroFirst = false, bool jittered = false) {
   Sys s(rate, tol, zeroFirst ? -20 * kS : 77 * kS); s.zeroFirst = zeroFirst;
   long long period = (long long)llround(1e9 / rate);
   std::vector<Event> evs;
   for (int i = 0; i < len; ++i) {
-    Event e{true, period};
+    Event e{true, jittered ? period + (period / 20) * (((long long)i * 7) % 5 - 2) + (i % 3) : period};   // jittered: +-10 % in five levels plus a few ns, never constant
     for (auto& d : devs) if (d.pos == i) {
       switch (d.kind) {
         case 0: e.dt = period + period / 10; break; case 1: e.dt = period - period / 10; break; case 2: e.dt = 1000; break;
@@ -239,7 +243,7 @@ bool run_script(vf::Ctx& c, double rate, double tol, int len, const std::vector<
   }
   auto params = [&](size_t upto) {
     std::string ds = "["; for (size_t k = 0; k < devs.size(); ++k) { if (k) ds += ","; ds += vf::JO().i("pos", devs[k].pos).str("kind", kDevName[devs[k].kind]).done(); } ds += "]";
-    return vf::JO().str("explorer", "S2").num("expected_rate", rate).num("tolerance", tol).i("script_length", len).b("first_stamp_zero", zeroFirst).raw("deviations", ds).u("failed_at_event", upto).done();
+    return vf::JO().str("explorer", "S2").num("expected_rate", rate).num("tolerance", tol).i("script_length", len).b("first_stamp_zero", zeroFirst).b("jittered", jittered).raw("deviations", ds).u("failed_at_event", upto).done();
   };
   for (size_t i = 0; i < evs.size(); ++i) {
     c.transitions();
@@ -251,7 +255,7 @@ bool run_script(vf::Ctx& c, double rate, double tol, int len, const std::vector<
 }
 
 void s2(vf::Ctx& c, double rate, double tol, int len, int bound, int first) {
-  if (first < 0) { run_script(c, rate, tol, len, {}); run_script(c, rate, tol, len, {}, true); return; }
+  if (first < 0) { run_script(c, rate, tol, len, {}); run_script(c, rate, tol, len, {}, true); run_script(c, rate, tol, std::max(len, 700), {}, false, true); run_script(c, rate, tol, std::max(len, 700), {{300, 3}, {301, 6}}, false, true); return; }
   for (int k1 = 0; k1 < 8; ++k1) {
     if (!run_script(c, rate, tol, len, {{first, k1}})) return;
     if (!run_script(c, rate, tol, std::min(len, 150), {{first, k1}}, true)) return;
@@ -299,6 +303,7 @@ std::string vf_describe(const std::string& tier) {
   o.str("S1b", th ? "every sequence of 6 events over the 11-event alphabet plus \"replace the bare monitor by a copy of itself\" for expected rates 1 (W=4) and 2.5 (W=5), no state de-duplication" : "every sequence of 5 events over the 11-event alphabet plus \"replace the bare monitor by a copy of itself\" for expected rates 1 (W=4) and 2.5 (W=5), no state de-duplication");
   o.str("S2", th ? "expected rates 5,10,12.5,32,200 x tolerance {0,0.1}: 500-event steady script, deviation bound 1 at every position (8 kinds), bound 2 on scripts of 2-3 windows"
                  : "expected rates 5,10,12.5,32,200 x tolerance {0,0.1}: 500-event steady script (bound 0), bound 1 on 3W+8 events (8 kinds, every position), bound 2 on 2W+6 events for rate 5 and 12.5");
+  o.str("S2_jittered", "per rate and tolerance: a 700-event script whose periods vary by +-10 % in five levels plus a few nanoseconds (never constant), plain and with a silence + late heartbeat in the middle");
   o.str("time_origins", "S1: every transition at two origins plus a run whose first data stamp is exactly 0 ns, canonical states compared; S1b: every sequence with a positive origin and with first stamp 0; S2: bound 0/1 scripts also with first stamp 0 (first 150 events)");
   o.str("oracle", "rate = 0 until W+1 stamps, then W/(span of last W periods) within 4 ulp; timeout iff silence > 0.5 s; report status/message/info vs model after every event");
   return o.done();
